@@ -62,8 +62,13 @@ def main():
         ran.append("demo with the change -> exit %d" % rc1)
         summary, failed = suite_result(wt)
         ran.append("test suite with the change -> %s" % summary)
-        base_failed = ["tests/test_dataframe.py::test_profile", "tests/test_dataframe.py::test_build_and_then_profile"]
-        suite_ok = bool(re.search(r"350 passed", summary)) or bool(re.search(r"35\d passed", summary))
+        known8 = {"tests/test_dataframe.py::test_profile", "tests/test_dataframe.py::test_build_and_then_profile",
+                  "tests/test_profiler.py::test_opteryx_profile_planets", "tests/test_profiler.py::test_opteryx_profile_satellites",
+                  "tests/test_profiler.py::test_opteryx_profile_astronauts", "tests/test_profiler.py::test_opteryx_profile_missions",
+                  "tests/test_profiler.py::test_opteryx_profile_fake", "tests/test_profiler.py::test_profile_estimators"}
+        mp = re.search(r"(\d+) passed", summary)
+        # the baseline's 350 stable tests must still pass: nothing outside the 8 known always-fail tests may fail
+        suite_ok = bool(mp) and int(mp.group(1)) >= 350 and set(failed) <= known8
     finally:
         sh("git -C /repo worktree remove --force %s" % wt)
         shutil.rmtree(wt, ignore_errors=True)
